@@ -6,6 +6,7 @@ mod dns;
 mod frag;
 mod frames;
 mod ingress;
+mod lowpan;
 mod neigh;
 mod tcp;
 mod pbuf;
@@ -32,6 +33,7 @@ fn main() {
         "dhcp-random" => dhcp::random(&args),
         "csum-replay" => csum::replay(&args),
         "ingress-replay" => ingress::replay(&args),
+        "lowpan-replay" => lowpan::replay(&args),
         "dns-random" => dns::random(&args),
         "dnsname-replay" => dns::name_replay(&args),
         "pollat-random" => pollat::random(&args),
